@@ -5,9 +5,69 @@
 #[path = "/repo/sandbox/src/alloc.rs"]
 mod alloc;
 
+/// Source of nondeterminism: `kani::any()` under Kani, a recorded byte feed natively (replay of
+/// Kani's concrete playback values, in the same call order).
+pub mod nd {
+    #[cfg(not(kani))]
+    use std::cell::RefCell;
+    #[cfg(not(kani))]
+    use std::collections::VecDeque;
+
+    #[cfg(not(kani))]
+    thread_local! { pub static FEED: RefCell<VecDeque<Vec<u8>>> = RefCell::new(VecDeque::new()); }
+
+    #[cfg(kani)]
+    pub fn any_u8() -> u8 {
+        kani::any()
+    }
+    #[cfg(kani)]
+    pub fn any_usize() -> usize {
+        kani::any()
+    }
+    #[cfg(kani)]
+    pub fn assume(c: bool) {
+        kani::assume(c)
+    }
+
+    #[cfg(not(kani))]
+    fn pop() -> Vec<u8> {
+        FEED.with(|f| f.borrow_mut().pop_front()).unwrap_or_else(|| panic!("FEED-EXHAUSTED"))
+    }
+    #[cfg(not(kani))]
+    pub fn any_u8() -> u8 {
+        pop()[0]
+    }
+    #[cfg(not(kani))]
+    pub fn any_usize() -> usize {
+        let b = pop();
+        let mut a = [0u8; 8];
+        a.copy_from_slice(&b[..8]);
+        usize::from_le_bytes(a)
+    }
+    #[cfg(not(kani))]
+    pub fn assume(c: bool) {
+        if !c {
+            panic!("ASSUME-VIOLATED");
+        }
+    }
+}
+
 #[cfg(kani)]
-mod proofs {
+macro_rules! cover {
+    ($c:expr, $m:expr) => {
+        cover!($c, $m)
+    };
+}
+#[cfg(not(kani))]
+macro_rules! cover {
+    ($c:expr, $m:expr) => {
+        let _ = $c;
+    };
+}
+
+pub mod proofs {
     use super::alloc::Alloc;
+    use super::nd::{any_u8, any_usize, assume};
     use std::alloc::{GlobalAlloc, Layout};
 
     const SLOTS: usize = 2;
@@ -29,13 +89,13 @@ mod proofs {
     /// `observe_usage`: after the step, usage is read back through reset_max()+get_max()
     /// (this destroys the peak, so peak harnesses pass false).
     unsafe fn step(a: &Alloc, g: &mut Ghost, limit: usize, max_size: usize, observe_usage: bool) {
-        let op: u8 = kani::any();
-        kani::assume(op < 4);
-        let slot: usize = kani::any();
-        kani::assume(slot < SLOTS);
-        let size: usize = kani::any();
-        kani::assume(size >= 1 && size <= max_size);
-        let tag: u8 = kani::any();
+        let op: u8 = any_u8();
+        assume(op < 4);
+        let slot: usize = any_usize();
+        assume(slot < SLOTS);
+        let size: usize = any_usize();
+        assume(size >= 1 && size <= max_size);
+        let tag: u8 = any_u8();
         match op {
             0 | 1 => {
                 if g.live[slot].is_some() {
@@ -55,9 +115,9 @@ mod proofs {
                         g.peak = g.used;
                     }
                     g.live[slot] = Some(Block { ptr: p, size, tag });
-                    kani::cover!(true, "an allocation succeeded");
+                    cover!(true, "an allocation succeeded");
                 } else {
-                    kani::cover!(true, "an allocation was refused");
+                    cover!(true, "an allocation was refused");
                 }
             }
             2 => {
@@ -72,12 +132,12 @@ mod proofs {
                             g.peak = g.used;
                         }
                         g.live[slot] = Some(Block { ptr: p, size, tag: b.tag });
-                        kani::cover!(size > b.size, "a realloc grew a block");
-                        kani::cover!(size < b.size, "a realloc shrank a block");
+                        cover!(size > b.size, "a realloc grew a block");
+                        cover!(size < b.size, "a realloc shrank a block");
                     } else {
                         // refused: block intact, still live with its old size
                         assert!(*b.ptr == b.tag, "refused realloc damaged the block");
-                        kani::cover!(true, "a realloc was refused");
+                        cover!(true, "a realloc was refused");
                     }
                 }
             }
@@ -88,7 +148,7 @@ mod proofs {
                     a.dealloc(b.ptr, layout);
                     g.used -= b.size;
                     g.live[slot] = None;
-                    kani::cover!(true, "a dealloc happened");
+                    cover!(true, "a dealloc happened");
                 }
             }
         }
@@ -118,8 +178,8 @@ mod proofs {
     }
 
     fn fresh(limit_cap: usize) -> (Alloc, Ghost, usize) {
-        let limit: usize = kani::any();
-        kani::assume(limit <= limit_cap);
+        let limit: usize = any_usize();
+        assume(limit <= limit_cap);
         (
             Alloc::new(limit),
             Ghost { used: 0, peak: 0, live: [None; SLOTS] },
@@ -129,9 +189,9 @@ mod proofs {
 
     macro_rules! history {
         ($name:ident, $steps:expr, $observe:expr, $cap:expr) => {
-            #[kani::proof]
-            #[kani::unwind(4)]
-            fn $name() {
+            #[cfg_attr(kani, kani::proof)]
+            #[cfg_attr(kani, kani::unwind(6))]
+            pub fn $name() {
                 let (a, mut g, limit) = fresh($cap);
                 unsafe {
                     let mut i = 0;
@@ -151,16 +211,38 @@ mod proofs {
     // peak never below the largest usage reached (no reset inside the history)
     history!(peak_2, 2, false, 1 << 16);
     history!(peak_3, 3, false, 1 << 16);
+    // thorough tier
+    history!(usage_4, 4, true, 1 << 16);
+    history!(peak_4, 4, false, 1 << 16);
+    // unconstrained limit: exposes wrap-around of `used + size` if any
+    history!(usage_2_anylimit, 2, true, usize::MAX / 4);
+    history!(peak_2_anylimit, 2, false, usize::MAX / 4);
+
+    pub fn run_by_name(name: &str) -> bool {
+        match name {
+            "usage_2" => usage_2(),
+            "usage_3" => usage_3(),
+            "usage_4" => usage_4(),
+            "peak_2" => peak_2(),
+            "peak_3" => peak_3(),
+            "peak_4" => peak_4(),
+            "usage_2_anylimit" => usage_2_anylimit(),
+            "peak_2_anylimit" => peak_2_anylimit(),
+            "set_limit_applies" => set_limit_applies(),
+            _ => return false,
+        }
+        true
+    }
 
     /// set_limit takes effect for the next operation.
-    #[kani::proof]
-    fn set_limit_applies() {
+    #[cfg_attr(kani, kani::proof)]
+    pub fn set_limit_applies() {
         let (a, _g, _limit) = fresh(1 << 16);
-        let nl: usize = kani::any();
-        kani::assume(nl <= 1 << 16);
+        let nl: usize = any_usize();
+        assume(nl <= 1 << 16);
         a.set_limit(nl);
-        let size: usize = kani::any();
-        kani::assume(size >= 1 && size <= 1 << 17);
+        let size: usize = any_usize();
+        assume(size >= 1 && size <= 1 << 17);
         unsafe {
             let p = a.alloc(Layout::from_size_align(size, 1).unwrap());
             assert!(p.is_null() == (size > nl));
